@@ -16,18 +16,25 @@ CASE_TIMEOUT = 900
 CPU_BUDGET = 800
 REQUIRED_OBS = ["extractions", "audit_events_inside", "snapshots_compared"]
 RULE = ("hostile archives from the reference writer: entries (name x kind) with names over {a, b, a/b, ../x, a/../../x, ./a, a//b, absolute outside, "
-        "absolute inside, ../<dest name>/a, .., ., ...} and kinds file / directory / symlink with targets over {., .., ../.., a, b, a/.., absolute inside, "
-        "absolute outside, /, ...}; ALL archives of 1 and 2 entries over the full alphabet, all 3-entry archives over a reduced alphabet, random 4-5 entry "
+        "absolute inside, ../<dest name>/a, ../<dest name>, .//<absolute>, .., ., ...} and kinds file / directory / symlink with targets over {., .., ../.., a, b, a/.., absolute inside, "
+        "absolute outside, /, a/../x (through a name a later entry turns into a link) ...}; ALL archives of 1 and 2 entries over the full alphabet, all 3-entry archives over a reduced "
+        "alphabet and over the respelled alphabet (names a, ./a, b, ./b: a later entry under another spelling replaces the earlier one on disk), random 4-5 entry "
         "archives; destination absolute / relative / None(cwd), empty or pre-populated; opened by path or stream; single folder or one folder per "
         "entry. Oracle: (1) snapshot (type, mode, size, mtime, link text, SHA-256) of the scratch area outside the destination is unchanged; "
         "(2) no audit event of a mutating call (open-for-write, mkdir, symlink, link, rename, remove, rmdir, chmod, chown, utime, truncate, shutil.*) "
         "resolves outside realpath(destination). Raising is always allowed. Cell = shape signature of the archive (kinds + name/target classes) + destination mode.")
-EXHAUSTIVE = {"quick": "all archives of <= 2 entries over the full shape alphabet (19 names x (file, dir, 13 link targets)); all 3-entry archives over the reduced alphabet; all 4-entry link chains (3 links over {a,b,a/b} x {., .., a/.., b/..} + one entry created through them)",
+EXHAUSTIVE = {"quick": "all archives of <= 2 entries over the full shape alphabet (24 names x (file, dir, 13 link targets)); all 3-entry archives over the reduced alphabet and over the respelled alphabet (4 names x (file, dir, 8 link targets)); all 4-entry link chains (3 links over {a,b,a/b} x {., .., a/.., b/..} + one entry created through them)",
               "thorough": "as quick + all 3-entry archives over a medium alphabet, all orders"}
 ASSUMPTIONS = ["a link created inside the destination whose text points outside is not by itself a violation; it becomes one when a later operation goes through it",
                "every escape the generator can express lands inside the scratch root (destination nested 6 levels deep, absolute decoys inside the scratch root)"]
 
-NAMES = ["a", "b", "a/b", "a/b/c", "b/a", "../x", "../../x", "a/../../x", "a/../b", "./a", "a/./b", "a//b", "{OUT}/f", "{D}/z", "../{DN}/a", "../{DN}x/a", "..", ".", "a/.."]
+NAMES = ["a", "b", "a/b", "a/b/c", "b/a", "../x", "../../x", "a/../../x", "a/../b", "./a", "a/./b", "a//b", "{OUT}/f", "{D}/z", "../{DN}/a", "../{DN}x/a", "..", ".", "a/..",
+         # '.' + absolute path ('.//dev/shm/...'): relative by its first component, absolute once a './' marker is stripped
+         "./{OUT}/f", "./{OUT}/newdir", "a/..{OUT}/f", "../{DN}", "{D}/../x"]
+# other spellings of the same two names: a later entry under another spelling replaces the earlier one on disk
+# (same spelling twice is renamed name_0 by py7zr); targets that run through a name another entry may turn into a link
+NAMES_S = ["a", "./a", "b", "./b"]
+TARGETS_S = [".", "..", "a/..", "b/..", "a", "b", "a/../x", "b/../decoydir/inner.txt"]
 TARGETS = [".", "..", "../..", "a", "b", "a/..", "b/..", "a/b", "{D}/a", "{OUT}", "{OUT}/f", "../x", "/"]
 NAMES_R = ["a", "b", "a/b", "b/a", "../x", "{OUT}/f"]
 TARGETS_R = [".", "..", "a", "{OUT}"]
@@ -51,10 +58,10 @@ def cases(rng, tier):
     batch = 250
     modes = ["abs", "rel", "cwd"]
 
-    def add(arcs, label):
+    def add(arcs, label, prepop=None):
         for i in range(0, len(arcs), batch):
-            out.append({"archives": arcs[i : i + batch], "dest": modes[(i // batch) % 3], "prepop": bool((i // batch) & 1), "open": "path" if (i // batch) % 4 == 0 else "stream",
-                        "perfile": bool((i // batch) % 5 == 0), "label": label})
+            out.append({"archives": arcs[i : i + batch], "dest": modes[(i // batch) % 3], "prepop": bool((i // batch) & 1) if prepop is None else prepop,
+                        "open": "path" if (i // batch) % 4 == 0 else "stream", "perfile": bool((i // batch) % 5 == 0), "label": label})
 
     add([[s] for s in full], "1-entry")
     add([[a, b] for a in full for b in full], "2-entry")
@@ -65,6 +72,9 @@ def cases(rng, tier):
     lk = [[n, "L", t] for n in ("a", "b", "a/b") for t in (".", "..", "a/..", "b/..")]
     last = [[n, k, t] for n in ("a/b/c", "b/c", "a/c") for (k, t) in (("F", None), ("L", "{D}/a"), ("L", ".."))]
     add([[x, y, z, w] for x in lk for y in lk for z in lk for w in last], "4-entry-link-chains")
+    sp = shapes(NAMES_S, TARGETS_S)
+    # never pre-populated: the pre-populated destination holds 'a' (directory) and 'b' (file), which are this family's own names
+    add([list(t) for t in itertools.product(sp, repeat=3)], "3-entry-respelled", prepop=False)
     if tier == "thorough":
         med = shapes(NAMES_M, TARGETS_M)
         add([list(t) for t in itertools.product(med, repeat=3)], "3-entry-medium")
